@@ -21,6 +21,12 @@ structure TokState where
   argVals : List (Bytes × Node)
   metaKeys : List Bytes
   metaVals : List (Bytes × Node)
+  /-- the invocation's proof links (`t.proof`); there is no cache of the delegations they resolve to:
+      every check asks the loader it is given -/
+  proofs : List Bytes := []
+  /-- the cells beyond `len` of the policy slice of a delegation the invocation relies on (spare capacity
+      of a slice shared with every other user of that delegation); `none` = the zero value -/
+  dlgPolicySpare : List (Option Bytes) := []
 
 /-- insertion sort of byte strings (Go: `sort.Strings` on a COPY of the key slice) -/
 def bytesLe : Bytes → Bytes → Bool
@@ -64,9 +70,20 @@ def sealReads (s : TokState) : TokState × Out :=
   let (s2, _) := metaIter s1
   (s2, a)
 
+/-- `ExecutionAllowedWithArgsHook`: the check runs on the arguments the hook returns (`executionAllowed(loader,
+    newArgs)`, a parameter — the token's `arguments` field is not reassigned); what any reader sees of the
+    token's own arguments during and after the call is what `ToIPLD` shows -/
+def executionAllowedHook (s : TokState) : TokState × Out := argsToIPLD s
+
+/-- `ExecutionAllowed` with a loader that has none of the proofs: `loadProofs` asks the loader for every
+    link of `t.proof` each time, so the answer is "missing" unless there is nothing to load; the output
+    stands for "failed as it must", then the arguments as any reader sees them -/
+def executionAllowedMissing (s : TokState) : TokState × Out := argsToIPLD s
+
 /-- the read-only operations of the stream -/
 inductive ROp where
   | argsToIPLD | argsString | metaString | argsIter | metaIter | executionAllowed | seal
+  | executionAllowedHook | executionAllowedMissing
   deriving DecidableEq, Repr
 
 def runOp : ROp → TokState → TokState × Out
@@ -77,6 +94,8 @@ def runOp : ROp → TokState → TokState × Out
   | .metaIter => Immut.metaIter
   | .executionAllowed => Immut.executionAllowedArgs
   | .seal => Immut.sealReads
+  | .executionAllowedHook => Immut.executionAllowedHook
+  | .executionAllowedMissing => Immut.executionAllowedMissing
 
 /-! ### threads and schedules -/
 
